@@ -45,6 +45,7 @@ type rec struct {
 	rd     Rendered
 	named  Obs
 	plain  Obs
+	copies map[string]Obs // the copy routes
 	ok     bool
 	status string // verdict of the named route: "" = conforms to the strict specification
 }
@@ -167,7 +168,7 @@ func Check(c *core.Ctx) (map[string]any, []string, error) {
 	judged := t.runLines + t.synCases
 	cov := map[string]any{
 		"states": t.states, "transitions": t.transitions, "traces_validated_against_impl": judged,
-		"samples": t.samples, "batches": batches, "programs": t.programs, "program_runs": t.runs, "run_cases_judged": t.runLines,
+		"samples": t.samples, "batches": batches, "routes": Routes, "programs": t.programs, "program_runs": t.runs, "run_cases_judged": t.runLines,
 		"routes_differing_judged_individually": t.routeDiff,
 		"syntax_cases":                         t.synCases, "syntax_route_checks": t.synRoutes,
 		"undecided_left_modelled_fragment": t.und, "undecided_by_tag": t.tagUnd,
@@ -209,11 +210,13 @@ func runBatch(c *core.Ctx, rng *rand.Rand, nProg, nSyn int, t *totals, selfTestN
 			defer wg.Done()
 			for r := range jobs {
 				var err error
-				for _, named := range []bool{true, false} {
+				r.copies = map[string]Obs{}
+				for _, route := range Routes {
+					named := route == "named"
 					var o Obs
-					o, err = RunProgram(r.rd.Src, r.sc.TLimit, named)
+					o, err = RunRoute(r.rd.Src, r.sc.TLimit, route)
 					if err != nil {
-						if _, err2 := RunProgram(r.rd.Src, r.sc.TLimit, named); err2 != nil {
+						if _, err2 := RunRoute(r.rd.Src, r.sc.TLimit, route); err2 != nil {
 							if strings.Contains(err.Error(), "does not parse") || strings.Contains(err.Error(), "does not compile") {
 								c.Note("generated program set aside (%v)", err)
 								if d := os.Getenv("VERIF_C19_DUMPBAD"); d != "" {
@@ -225,10 +228,13 @@ func runBatch(c *core.Ctx, rng *rand.Rand, nProg, nSyn int, t *totals, selfTestN
 						}
 						break
 					}
-					if named {
+					switch {
+					case named:
 						r.named = o
-					} else {
+					case route == "plain":
 						r.plain = o
+					default:
+						r.copies[route] = o
 					}
 					mu.Lock()
 					t.runs++
@@ -249,6 +255,7 @@ func runBatch(c *core.Ctx, rng *rand.Rand, nProg, nSyn int, t *totals, selfTestN
 	type key struct {
 		r     *rec
 		named bool
+		route string
 		syn   *synCase
 	}
 	byID := map[int]key{}
@@ -258,13 +265,22 @@ func runBatch(c *core.Ctx, rng *rand.Rand, nProg, nSyn int, t *totals, selfTestN
 			continue
 		}
 		next++
-		byID[next] = key{r: r, named: true}
+		byID[next] = key{r: r, named: true, route: "named"}
 		enc.Encode(runLine{ID: next, Kind: "run", Prog: r.sc.Prog, Files: r.rd.Files, TLimit: r.sc.TLimit, Named: true, Obs: r.named})
+		for _, route := range Routes[2:] {
+			if o := r.copies[route]; !sameJSON(r.named, o) {
+				// a copied runtime behaves differently from a fresh one: judge it on its own
+				t.routeDiff++
+				next++
+				byID[next] = key{r: r, route: route}
+				enc.Encode(runLine{ID: next, Kind: "run", Prog: r.sc.Prog, Files: r.rd.Files, TLimit: r.sc.TLimit, Named: true, Obs: o})
+			}
+		}
 		if !sameJSON(withoutSrc(r.named), r.plain) {
 			// the two routes differ in more than the file name: judge the plain route on its own
 			t.routeDiff++
 			next++
-			byID[next] = key{r: r, named: false}
+			byID[next] = key{r: r, named: false, route: "plain"}
 			enc.Encode(runLine{ID: next, Kind: "run", Prog: r.sc.Prog, Files: r.rd.Files, TLimit: r.sc.TLimit, Named: false, Obs: r.plain})
 		}
 	}
@@ -328,6 +344,9 @@ func runBatch(c *core.Ctx, rng *rand.Rand, nProg, nSyn int, t *totals, selfTestN
 			switch v.Status {
 			case "und":
 				t.und++
+				if d := os.Getenv("VERIF_C19_DUMPUND"); d != "" && k.r != nil {
+					os.WriteFile(fmt.Sprintf("%s/und-%d.js", d, v.ID), []byte(k.r.rd.Src), 0o644)
+				}
 				for _, tg := range k.r.sc.Tags {
 					if strings.HasPrefix(tg, "err:") || strings.HasPrefix(tg, "ctx:") {
 						t.tagUnd[tg]++
@@ -361,16 +380,18 @@ func runBatch(c *core.Ctx, rng *rand.Rand, nProg, nSyn int, t *totals, selfTestN
 				}
 				reported[k.r] = true
 				obs := k.r.named
-				if !k.named {
+				if k.route == "plain" {
 					obs = k.r.plain
+				} else if k.route != "named" {
+					obs = k.r.copies[k.route]
 				}
-				o2, err2 := RunProgram(k.r.rd.Src, k.r.sc.TLimit, k.named)
+				o2, err2 := RunRoute(k.r.rd.Src, k.r.sc.TLimit, k.route)
 				if err2 != nil || !sameJSON(o2, obs) {
 					c.Note("non-reproducible observation skipped")
 					return
 				}
-				c.Violate(fmt.Sprintf("trace limit %d, named=%v: observed %s but the specification requires %s for program:\n%s", k.r.sc.TLimit, k.named, jsonOf(obs), string(v.Want), k.r.rd.Src),
-					map[string]any{"source": k.r.rd.Src, "tlimit": k.r.sc.TLimit, "named": k.named, "observed": obs, "required": v.Want, "under_deviations": v.Dev, "tags": k.r.sc.Tags})
+				c.Violate(fmt.Sprintf("route %s, trace limit %d: observed %s but the specification requires %s for program:\n%s", k.route, k.r.sc.TLimit, jsonOf(obs), string(v.Want), k.r.rd.Src),
+					map[string]any{"source": k.r.rd.Src, "tlimit": k.r.sc.TLimit, "named": k.route != "plain", "route": k.route, "observed": obs, "required": v.Want, "under_deviations": v.Dev, "tags": k.r.sc.Tags})
 			}
 		})
 	if err != nil {
